@@ -111,6 +111,10 @@ PROBES = [
     ("shared_cfg_link_with_class", "[A](wiki:A){.big #lnk} and [B](wiki:B){.other}\n", WIKI_CFG),
     ("shared_cfg_link_plain", "[C](wiki:C) [D](https://e.org) {{ s }} {{ nested }}\n\n```python\nx\n```\n\n```note\nn\n```\n\n|a|\n|-|\n", WIKI_CFG),
     ("shared_cfg_front_merge", "---\nmyst:\n  url_schemes:\n    wiki:\n      url: https://other/{{path}}\n      classes: [front]\n  substitutions:\n    s: FRONT\n  html_meta:\n    keywords: k\n---\n[E](wiki:E){.cls} {{ s }}\n", WIKI_CFG),
+    # html fragments that stop in the middle of a construct, with the html extensions on (whatever reads them must not carry the rest into the next fragment)
+    ("html_cut_tag_on", "<div class=\"admonition\"\n\ntext\n\n<img src=\"a.png\" alt=\"A\">\n", {"enable_extensions": ["html_image", "html_admonition"]}),
+    ("html_open_comment_on", "para\n\n<!-- never closed\n", {"enable_extensions": ["html_image", "html_admonition"]}),
+    ("html_open_style_on", "text <style> p { } and <script> x\n\n<div>a</div\n\nend &amp\n", {"enable_extensions": ["html_image", "html_admonition"]}),
     # docutils' process-wide registries
     ("default_role_set", "```{default-role} math\n```\n\n```{eval-rst}\n`a+b`\n```\n", {}),
     ("default_role_use", "```{eval-rst}\n`a+b` :emphasis:`e`\n```\n\n```{note}\n```{eval-rst}\n`c`\n```\n```\n", {}),
@@ -389,9 +393,58 @@ def eval_sphinx(ctx, case):
     return True
 
 
+def eval_reuse(ctx, case):
+    """The Python API: ONE Markdown parser object (create_md_parser) renders several texts one after the other; every document must come out as with a parser of its own."""
+    import io as _io
+
+    from docutils.frontend import get_default_settings
+    from docutils.utils import new_document
+
+    from myst_parser.config.main import MdParserConfig
+    from myst_parser.mdit_to_docutils.base import DocutilsRenderer
+    from myst_parser.parsers.docutils_ import Parser
+    from myst_parser.parsers.mdit import create_md_parser
+
+    pool = POOLS.setdefault((case["pool_seed"], case["pool_n"]), make_pool(case["pool_seed"], case["pool_n"]))
+    cfg_item = pool[case["cfg_of"] % len(pool)]
+    cfg = {k: v for k, v in cfg_item["cfg"].items() if k not in ("inventories", "suppress_warnings")}
+    try:
+        shared = create_md_parser(MdParserConfig(**cfg), DocutilsRenderer)
+    except Exception:  # noqa: BLE001
+        return True
+
+    def render(md, text, k):
+        settings = get_default_settings(Parser)
+        ws = _io.StringIO()
+        settings.warning_stream, settings.halt_level = ws, 5
+        doc = new_document(os.path.join(TMP, "doc.md"), settings=settings)
+        md.options["document"] = doc
+        try:
+            md.render(text)
+            return doc.pformat().replace(TMP, "WORKDIR") + "\n--warnings--\n" + ws.getvalue().replace(TMP, "WORKDIR")
+        except Exception as e:  # noqa: BLE001
+            return f"EXCEPTION {type(e).__name__}: {e}"
+
+    for k, idx in enumerate(case["texts"]):
+        text = pool[idx % len(pool)]["text"]
+        got = render(shared, text, k)
+        want = render(create_md_parser(MdParserConfig(**cfg), DocutilsRenderer), text, k)
+        ctx.count("reuse_renders_compared")
+        if got != want:
+            import difflib
+
+            diff = "\n".join(list(difflib.unified_diff(want.splitlines(), got.splitlines(), "own-parser", "shared-parser", lineterm="", n=1))[:30])
+            ctx.violation("reuse:shared-parser-object-output-differs", f"text number {k + 1} rendered by a parser object that rendered {k} other text(s) before differs from the same text rendered by a new parser with the same configuration", case,
+                          {"diff": diff, "text": text[:1500], "config": repr(cfg)[:500]})
+            return True
+    return True
+
+
 def eval_case(ctx, case):
     if case["kind"] == "sphinx":
         return eval_sphinx(ctx, case)
+    if case["kind"] == "reuse":
+        return eval_reuse(ctx, case)
     return eval_history(ctx, case)
 
 
@@ -416,6 +469,12 @@ def run_shard(ctx):
             ctx.sample({"history": [pool[j]["name"] for j in hist], "interleave": inter})
         if i >= 12 and ctx.time_left() < ctx.budget_s * (1 - t_hist):  # a floor of histories even on a loaded machine
             break
+    for i in range(25 if quick else 1500):
+        case = {"kind": "reuse", "pool_seed": pool_seed, "pool_n": pool_n, "cfg_of": R.randrange(len(pool)), "texts": [R.randrange(len(pool)) for _ in range(R.randint(2, 5))]}
+        if R.random() < 0.5:
+            case["texts"][-1] = case["texts"][0]  # the same text again
+        eval_case(ctx, case)
+        ctx.case(("reuse", repr(case)), True)
     ns = 1 if quick else 40
     for i in range(ns):
         case = {"kind": "sphinx", "seed": R.getrandbits(40), "math_front": (ctx.shard + i) % 2 == 1, "html_image": (ctx.shard // 2 + i) % 2 == 1, "schedules": [[2, 0], [4, R.randint(1, 999)]] if quick else [[2, 0], [4, R.randint(1, 999)], [4, R.randint(1, 999)], [8, R.randint(1, 999)]]}
